@@ -42,6 +42,48 @@ pub fn rng_u64() -> Option<u64> {
     RNG_HOOK.with(|h| h.get()).map(|f| f())
 }
 
+thread_local! {
+    static ASYNC_YIELD_HOOK: Cell<Option<fn(&'static str) -> bool>> = const { Cell::new(None) };
+}
+
+/// Installs (or removes) the function consulted by [`yield_async`] on this thread.
+pub fn set_async_yield_hook(hook: Option<fn(&'static str) -> bool>) {
+    ASYNC_YIELD_HOOK.with(|h| h.set(hook));
+}
+
+/// Cooperative scheduling point for simulators: if a hook is installed and answers `true` for
+/// this site, the returned future yields to the executor once; otherwise it is ready at once.
+/// Placed where the library takes an async lock, so that a simulator running everything on one
+/// thread can still let another task run in between (as a second worker thread could).
+pub fn yield_async(site: &'static str) -> YieldAsync {
+    YieldAsync { site, done: false }
+}
+
+/// Future returned by [`yield_async`].
+pub struct YieldAsync {
+    site: &'static str,
+    done: bool,
+}
+
+impl std::future::Future for YieldAsync {
+    type Output = ();
+
+    fn poll(
+        mut self: std::pin::Pin<&mut Self>,
+        cx: &mut std::task::Context<'_>,
+    ) -> std::task::Poll<()> {
+        if !self.done {
+            self.done = true;
+            let site = self.site;
+            if ASYNC_YIELD_HOOK.with(|h| h.get()).map(|f| f(site)).unwrap_or(false) {
+                cx.waker().wake_by_ref();
+                return std::task::Poll::Pending;
+            }
+        }
+        std::task::Poll::Ready(())
+    }
+}
+
 /// Clock seam.
 pub mod clock {
     /// Current instant according to tokio's (pausable) clock.
